@@ -427,6 +427,13 @@ func (env *CEnv) evalCall(x *ast.CallExpr) (Value, types.Type) {
 				c.useStr()
 				return IntV{app("gs.len", asInt(v))}, tInt
 			case *types.Map:
+				if len(env.qvars) > 0 {
+					// under a binder the range fact about the cardinality is stated for every value of the bound variables
+					m := asInt(v)
+					card := c.heapGet(env.s, "C."+mapKeyName(u), sA1)
+					env.s.assume(forall(env.qvars, and(le("0", sel(card, m)), le(sel(card, m), maxLen))))
+					return IntV{ite(eq(m, "0"), "0", sel(card, m))}, tInt
+				}
 				return IntV{c.mapLen(env.s, asInt(v), u)}, tInt
 			}
 			cfail("len of %s", typeKey(t))
